@@ -141,28 +141,30 @@ def augment(
             "state_list and action_list can only be set for TabularMarkovDecisionProcess"
     class AugmentedMDP(mdp.__class__):
         def __init__(self): pass
+    # inherited components are stored as static methods as well: when `mdp` is itself an augmented MDP, `mdp.reward` etc. are plain
+    # functions, and a plain function stored on the class would be bound to the new instance and called with an extra `self`
     # the discount rate is usually an instance attribute of `mdp`, which the new instance would otherwise lose
     AugmentedMDP.discount_rate = mdp.discount_rate
     if initial_state_dist is not None:
         AugmentedMDP.initial_state_dist = staticmethod(initial_state_dist)
     else:
-        AugmentedMDP.initial_state_dist = mdp.initial_state_dist
+        AugmentedMDP.initial_state_dist = staticmethod(mdp.initial_state_dist)
     if actions is not None:
         AugmentedMDP.actions = staticmethod(actions)
     else:
-        AugmentedMDP.actions = mdp.actions
+        AugmentedMDP.actions = staticmethod(mdp.actions)
     if next_state_dist is not None:
         AugmentedMDP.next_state_dist = staticmethod(next_state_dist)
     else:
-        AugmentedMDP.next_state_dist = mdp.next_state_dist
+        AugmentedMDP.next_state_dist = staticmethod(mdp.next_state_dist)
     if reward is not None:
         AugmentedMDP.reward = staticmethod(reward)
     else:
-        AugmentedMDP.reward = mdp.reward
+        AugmentedMDP.reward = staticmethod(mdp.reward)
     if is_absorbing is not None:
         AugmentedMDP.is_absorbing = staticmethod(is_absorbing)
     else:
-        AugmentedMDP.is_absorbing = mdp.is_absorbing
+        AugmentedMDP.is_absorbing = staticmethod(mdp.is_absorbing)
     if (
         issubclass(AugmentedMDP, TabularMarkovDecisionProcess) and \
         isinstance(mdp, TabularMarkovDecisionProcess)
